@@ -347,3 +347,23 @@ verus_unit(
 )
 kani("models::quantizer_reject_i16_u8_p8", ["C09"], fns=[M + "quantize.rs::<LeakilyQuantizedDistribution as EncoderModel>::left_cumulative_and_probability"],
      text="Some iff min <= symbol <= max for every i16 symbol and every support of <= 256 symbols (probability type u8)")
+
+# ---------------- Verus unit: range decoder step (queue.rs)
+_RD_IMPL = "Decode<PRECISION>\n    for RangeDecoder<Word, State, Backend>"
+verus_unit(
+    name="range_dec", template="range_dec_unit.rs.tmpl",
+    widths=["u8_u16", "u8_u32", "u8_u64", "u16_u32", "u16_u64", "u32_u64"],
+    slots={
+        "DECODE": dict(file="src/stream/queue.rs", anchor=_RD_IMPL, fn="decode_symbol", extra=[
+            (r"self\.bulk\.read\(\)\?", "self.bulk.read().be()?", 1),
+            (r"word\.into\(\)", "word.w2s()", 1),
+            (r"\.expect\(\"TODO\"\)", ".unwrap()", 1),
+            # ghost-only insertion at a recorded anchor (DESIGN §3 step 3): lemma call after the model lookup
+            (r"(model\.quantile_function\(quantile\.as_\(\)\.as_\(\)\);)", r"\1\n        proof { lemma_dec_step(scale, quantile, left_sided_cumulative, probability, self.state.lower, self.state.range, self.point, PRECISION); }", 1),
+        ]),
+    },
+    obligations={
+        "decode_symbol": dict(own=["C10", "C02", "C06", "C20"], dep=["C07", "C11"], kani_twin="range::u8_u16_p3::dec_step",
+                              text="ensures: InvalidData iff quantile >= 2^P (state untouched); else Ok(model symbol of the quantile), invariants point-lower<range and range>=2^(sb-wb) re-established, state follows the interval step; all P"),
+    },
+)
